@@ -1257,6 +1257,55 @@ theorem unify_complete_partial {σ l r x} (hW : WF σ) (hl : NF σ l x) (hr : NF
   simp only [unifyF, a1, a2]
   exact this
 
+/-! ### the constraint loop on `TypeEqual` constraints -/
+
+/-- the invariant of the pass: well-formedness, refinement, and every constraint whose `unify`
+returned `true` holds in the FINAL store -/
+theorem solveEqs_post {f} : ∀ σ cs ds σ', WF σ → solveEqs f σ cs = some (ds, σ') →
+    WF σ' ∧ Ext σ σ' ∧ (ds = [] → ∀ c, c ∈ cs → Eqv σ' c.1 c.2)
+  | σ, [], ds, σ', hW, h => by
+    simp [solveEqs] at h
+    obtain ⟨rfl, rfl⟩ := h
+    exact ⟨hW, Ext.refl hW, fun _ c hc => by cases hc⟩
+  | σ, (l, r) :: cs, ds, σ', hW, h => by
+    simp only [solveEqs] at h
+    cases hu : unifyF f σ l r with
+    | none => simp [hu] at h
+    | some res =>
+      obtain ⟨d, σ1⟩ := res
+      have P := unifyF_post f σ l r _ hW hu
+      cases hs : solveEqs f σ1 cs with
+      | none => simp [hu, hs] at h
+      | some res2 =>
+        obtain ⟨ds2, σ2⟩ := res2
+        simp [hu, hs] at h
+        obtain ⟨hds, rfl⟩ := h
+        obtain ⟨w2, e2, q2⟩ := solveEqs_post σ1 cs ds2 σ2 P.wf hs
+        refine ⟨w2, P.ext.trans e2, fun hnil c hc => ?_⟩
+        cases d with
+        | some d => simp [← hds] at hnil
+        | none =>
+          have hds2 : ds2 = [] := by simpa [← hds] using hnil
+          rcases List.mem_cons.1 hc with rfl | hc
+          · exact (P.eqv rfl).transport e2
+          · exact q2 hds2 c hc
+
+/-- **If solving the equality constraints pushes no diagnostic, the final store satisfies every one
+of them** (normal forms agree), it refines the initial store, and it is acyclic if the initial one was. -/
+theorem solve_type_equal_sound {f σ cs σ'} (hW : WF σ) (hA : Acyclic σ) (h : solveEqs f σ cs = some ([], σ')) :
+    (∀ c, c ∈ cs → ∃ x y, NF σ' c.1 x ∧ NF σ' c.2 y ∧ agree x y = true) ∧ Acyclic σ' ∧ WF σ' := by
+  obtain ⟨w, e, q⟩ := solveEqs_post σ cs [] σ' hW h
+  refine ⟨fun c hc => ?_, hA.of_ext e, w⟩
+  obtain ⟨f1, g1, x, y, hx, hy, ha⟩ := q rfl c hc
+  exact ⟨x, y, ⟨f1, hx⟩, ⟨g1, hy⟩, ha⟩
+
+/-- … and with diagnostics the store is still acyclic (later phases normalise types of rejected
+programs too) -/
+theorem solve_type_equal_acyclic {f σ cs ds σ'} (hW : WF σ) (hA : Acyclic σ) (h : solveEqs f σ cs = some (ds, σ')) :
+    Acyclic σ' ∧ WF σ' :=
+  let ⟨w, e, _⟩ := solveEqs_post σ cs ds σ' hW h
+  ⟨hA.of_ext e, w⟩
+
 /-! ## Non-vacuity, and what the real code does NOT guarantee -/
 
 section Examples
@@ -1338,6 +1387,10 @@ example : (unifyF 9 s3 (.param "T") (.int 32 true)).map (·.1) = some (some .par
 /-- `dyn` types are nominal: equal trait names or `dyn-name` -/
 example : (unifyF 9 s3 (.dyn "A") (.dyn "B")).map (·.1) = some (some .dynName) ∧
           (unifyF 9 s3 (.dyn "A") (.dyn "A")).map (·.1) = some none := by decide
+
+/-- the pass goes on after a failing constraint and reports the failures in order -/
+example : (solveEqs 9 s3 [(.tvar 0, .bool), (.tvar 0, .string), (.tvar 1, .vec (.tvar 0)), (.tvar 1, .vec .unit)]).map (·.1)
+    = some [.notEqual, .notEqual] := by decide
 
 end Examples
 
